@@ -11,6 +11,7 @@ import ast
 from ..cfg import cfg_of, literals
 from ..dataflow import Defs, calls_in, stmt_of
 from ..index import N, AnalysisError, call_name, dotted, enclosing, head, norm, walk_body
+from ..pattern import find as pfind, has_fact, local_defined_as, pmatch
 from ..rules import COMPOUND, kw, node_calls, own_calls, prov_at
 from ..witness import W
 
@@ -99,34 +100,43 @@ def run(chk):
         # some cut precedes this emit split on every path
         ok2, _ = dcfg.every_path([dcfg.entry], ecfg_nodes, lambda n: n in cut_nodes or (n.kind == "stmt" and isinstance(n.stmt, ast.For) and any(x in [c for c in cuts] for b in n.stmt.body for x in ast.walk(b))), "n")
         chk.check(ok2, "C09.R3", dc, e, "results are emitted before the already-sent part was cut off", site_text="sent_until cut precedes the emit split")
-    d = Defs(dc.node)
-    ib = d.single("invalid_beyond")
-    chk.check(ib is not None and "end" in norm(ib) and "window_size[1]" in norm(ib), "C09.R3", dc, None, "validity limit does not depend on the end of the inputs and the look-ahead window", site_text="invalid_beyond = f(end, window_size[1])")
-    single = [e for e in emits if norm(kw(e.value, "t")) == "invalid_beyond"]
+    single0 = [e for e in emits if isinstance(kw(e.value, "t"), ast.Name) and isinstance(e.value.func.value, ast.Name) and norm(e.value.func.value) == norm(e.targets[0].elts[0])]
+    IB = norm(kw(single0[0].value, "t")) if single0 else None
+    ibd = [n for n, b in pfind(dc.node, f"{IB} = int(L_end - 2 * L_w[1] - 1)")] if IB else []
+    chk.check(bool(ibd), "C09.R3", dc, None, "validity limit does not depend on the end of the inputs and the look-ahead window", site_text="invalid_beyond = f(end, window_size[1])")
+    single = [e for e in emits if IB and norm(kw(e.value, "t")) == IB]
     chk.check(bool(single), "C09.R3", dc, None, "single-output results are not split at the validity limit", site_text="single-output: split(t=invalid_beyond)")
     su = [n for n in walk_body(dc.node) if isinstance(n, ast.Assign) and norm(n.targets[0]) == "self.sent_until"]
-    chk.check(any(norm(n.value) == "self.cached_results.start" for n in su) and any(norm(n.value) == "prev_split" for n in su), "C09.R3", dc, None, "sent_until is not set to where the withheld results start", site_text="sent_until = start of the withheld results")
+    multi = [e for e in emits if e not in single]
+    PS = norm(kw(multi[0].value, "t")) if multi and isinstance(kw(multi[0].value, "t"), ast.Name) else None
+    psd = [n for n, b in pfind(dc.node, f"{PS} = self.cache_beyond(L_res, {IB}, self.cached_results)")] if PS and IB else []
+    chk.check(any(norm(n.value) == "self.cached_results.start" for n in su) and bool(psd) and any(norm(n.value) == PS for n in su), "C09.R3", dc, None, "sent_until is not set to where the withheld results start", site_text="sent_until = start of the withheld results")
     cat = [c for c in calls_in(dc.node) if (call_name(c) or "").endswith("Chunk.concatenate")]
-    chk.check(len(cat) == 1 and norm(cat[0].args[0]) == "[self.cached_input[data_kind], chunk]", "C09.R3", dc, None, "cached input is not put in front of the new input", site_text="do_compute: concatenate([cached_input, chunk])")
+    okcat = False
+    if len(cat) == 1:
+        b = pmatch("[self.cached_input[L_k], L_c]", cat[0].args[0])
+        lp = enclosing(cat[0], (ast.For,))
+        okcat = b is not None and lp is not None and norm(lp.target) == f"({b['L_k']}, {b['L_c']})" and norm(lp.iter) == "kwargs.items()"
+    chk.check(okcat, "C09.R3", dc, None, "cached input is not put in front of the new input", site_text="do_compute: concatenate([cached_input, chunk])")
     cb = lambda n: n.kind == "stmt" and not isinstance(n.stmt, COMPOUND) and any(call_name(c) == "self.cache_beyond" and len(c.args) == 3 and norm(c.args[2]) == "self.cached_input" and norm(c.args[0]) == "kwargs" for c in own_calls(n.stmt))
     ok, _ = dcfg.every_path([dcfg.entry], [ret], cb, "n")
     chk.check(ok, "C09.R3", dc, ret.stmt, "input cache is not refreshed on every path: the next chunk is computed without its neighbours", site_text="do_compute: cache_beyond(kwargs, ..., self.cached_input) on every path")
     sup = lambda n: n.kind == "stmt" and not isinstance(n.stmt, COMPOUND) and any(call_name(c) == "super().do_compute" for c in own_calls(n.stmt))
     ok, _ = dcfg.every_path([dcfg.entry], [ret], sup, "n")
     chk.check(ok, "C09.R3", dc, None, "computation bypasses Plugin.do_compute (validation)", site_text="do_compute: super().do_compute on every path")
-    er = [n for n in dcfg.stmt_nodes() if isinstance(n.stmt, ast.Raise) and any(N("len(set(ends)) == 1") in t and p is False for t, p in dcfg.guard_facts(n))]
+    er = [n for n in dcfg.stmt_nodes() if isinstance(n.stmt, ast.Raise) and has_fact(dcfg, n, "len(set(L_e)) == 1", False)]
     chk.check(bool(er), "C09.R3", dc, None, "inputs ending at different times are accepted", site_text="do_compute: raise on incongruent input ends", nontrivial=False)
 
     chk.describe("C09.R4", "cache_beyond keeps what lies after the split (early split allowed) and raises when the starts cannot be aligned")
     cbf = repo.func("OverlapWindowPlugin.cache_beyond", OVERLAP)
     sp = [n for n in walk_body(cbf.node) if isinstance(n, ast.Assign) and isinstance(n.value, ast.Subscript) and isinstance(n.value.value, ast.Call) and isinstance(n.value.value.func, ast.Attribute) and n.value.value.func.attr == "split"]
-    chk.check(len(sp) == 1 and norm(sp[0].value.slice) == "1" and isinstance(kw(sp[0].value.value, "allow_early_split"), ast.Constant) and kw(sp[0].value.value, "allow_early_split").value is True and norm(kw(sp[0].value.value, "t")) == "prev_split", "C09.R4", cbf, sp[0] if sp else None, "cache does not keep the right part of an early split at the running split time", site_text="cache_beyond: cached[data] = chunk.split(t=prev_split, allow_early_split=True)[1]")
+    chk.check(len(sp) == 1 and norm(sp[0].value.slice) == "1" and isinstance(kw(sp[0].value.value, "allow_early_split"), ast.Constant) and kw(sp[0].value.value, "allow_early_split").value is True and norm(kw(sp[0].value.value, "t")) == cbf.params[2], "C09.R4", cbf, sp[0] if sp else None, "cache does not keep the right part of an early split at the running split time", site_text="cache_beyond: cached[data] = chunk.split(t=prev_split, allow_early_split=True)[1]")
     fl_ = [n for n in walk_body(cbf.node) if isinstance(n, ast.For) and n.orelse and any(isinstance(x, ast.Raise) for x in n.orelse)]
     chk.check(bool(fl_), "C09.R4", cbf, None, "cache alignment gives up silently", site_text="cache_beyond: for ... else: raise")
-    up = [n for n in walk_body(cbf.node) if isinstance(n, ast.Assign) and norm(n.targets[0]) == "prev_split" and norm(n.value) == "cached[data].start"]
+    up = [n for n, b in pfind(cbf.node, f"{cbf.params[2]} = {cbf.params[3]}[L_d].start")]
     chk.check(bool(up), "C09.R4", cbf, None, "split time does not follow the early splits", site_text="cache_beyond: prev_split = cached[data].start")
     rt = [n for n in walk_body(cbf.node) if isinstance(n, ast.Return)]
-    chk.check(bool(rt) and all(norm(r.value) == "prev_split" for r in rt), "C09.R4", cbf, None, "cache_beyond does not report the aligned split time", site_text="cache_beyond: returns prev_split", nontrivial=False)
+    chk.check(bool(rt) and all(norm(r.value) == cbf.params[2] for r in rt), "C09.R4", cbf, None, "cache_beyond does not report the aligned split time", site_text="cache_beyond: returns prev_split", nontrivial=False)
 
 
 WITNESSES = [
